@@ -106,6 +106,19 @@ def glue_of(repo, workdir):
             seen[fn["name"]] = k + 1
             key = f"{rel}::{fn['name']}" + (f"#{k}" if k else "")
             res[key] = {"sha": hashlib.sha256("\n".join(norm).encode()).hexdigest(), "lines": len(norm), "text": norm}
+    # the manifest and the locked versions of the dependencies whose contracts are assumed (prelude/): the assumed contracts
+    # were written for these versions and feature selections
+    try:
+        man = normalise([l for l in open(os.path.join(repo, "Cargo.toml")).read().split("\n") if not l.strip().startswith("#")])
+        res["Cargo.toml::manifest"] = {"sha": hashlib.sha256("\n".join(man).encode()).hexdigest(), "lines": len(man), "text": man}
+        lock = open(os.path.join(repo, "Cargo.lock")).read()
+        pins = []
+        for dep in ("daggy", "petgraph", "fixedbitset", "tokio", "futures", "futures-util", "futures-core", "interruptible", "serde", "resman"):
+            for m in re.finditer(r'name = "%s"\nversion = "([^"]+)"' % re.escape(dep), lock):
+                pins.append(f"{dep} {m.group(1)}")
+        res["Cargo.lock::assumed-dependency-versions"] = {"sha": hashlib.sha256("\n".join(pins).encode()).hexdigest(), "lines": len(pins), "text": pins}
+    except OSError:
+        res["Cargo.toml::manifest"] = {"sha": "unreadable", "lines": 0, "text": []}
     return res
 
 
